@@ -31,10 +31,11 @@ Lemma index_ranges_match_model_lemma d ep M N size : sizes_ok d M N ->
   cfg_same (gen_chebDeriv d ep size) (cfg_chebDeriv d ep size) /\
   gen_cardDeriv_rows d ep = trim_rows d ep /\
   gen_int_div d ep M N = wdiv d M N /\
-  gen_int_halved d ep = int_halved d ep.
+  halved_ok d ep (gen_int_halved d ep).
 Proof.
-  intro HS. unfold cfg_same.
-  destruct d, ep; cbn in *; repeat split; try reflexivity; lia.
+  intro HS. unfold cfg_same, halved_ok.
+  destruct d, ep; cbn in *; repeat split; try reflexivity; try lia;
+    repeat (constructor; [cbn; tauto|]); constructor.
 Qed.
 Theorem generated_index_ranges_match_model : forall d ep M N size, sizes_ok d M N ->
   cfg_same (gen_evalCard d ep M N) (cfg_evalCard d ep M N) /\
@@ -43,7 +44,7 @@ Theorem generated_index_ranges_match_model : forall d ep M N size, sizes_ok d M 
   cfg_same (gen_chebDeriv d ep size) (cfg_chebDeriv d ep size) /\
   gen_cardDeriv_rows d ep = trim_rows d ep /\
   gen_int_div d ep M N = wdiv d M N /\
-  gen_int_halved d ep = int_halved d ep.
+  halved_ok d ep (gen_int_halved d ep).
 Proof. exact index_ranges_match_model_lemma. Qed.
 Print Assumptions generated_index_ranges_match_model.
 
@@ -321,25 +322,35 @@ Print Assumptions gcl_weighted_exact_thm.
     points; factor sqrt(1-x^2)) is the uniform rule on the complete grid -- the end-point
     terms vanish, so halving / dropping them is immaterial *)
 Theorem integrate_rule_is_uniform : forall d ep grid M N g,
-  hd 0 grid = -1 -> last grid 0 = 1 -> (3 <= length grid)%nat ->
-  ruleR d ep grid M N g = / INR (gen_int_div d ep M N) * Rsum (map (tfun g) grid).
+  sizes_ok d M N -> hd 0 grid = -1 -> last grid 0 = 1 -> (3 <= length grid)%nat ->
+  ruleRH (gen_int_halved d ep) (gen_int_div d ep M N) d ep grid g
+  = / INR (gen_int_div d ep M N) * Rsum (map (tfun g) grid).
 Proof.
-  intros d ep grid M N g Hh Hl Hlen.
-  replace (gen_int_div d ep M N) with (wdiv d M N) by (destruct d, ep; reflexivity).
-  now apply rule_is_uniform.
+  intros d ep grid M N g HS Hh Hl Hlen.
+  apply rule_is_uniform_gen; try assumption.
+  apply (index_ranges_match_model_lemma d ep M N 0%nat HS).
 Qed.
 Print Assumptions integrate_rule_is_uniform.
 
 (** integrate is exact on the exactness class, on the Gauss-Lobatto nodes, for every
-    direction and end-point flag: for q with q(-cos t) = sum_{j<=2n-3} b_j cos(j t),
+    direction and end-point flag, with the divisor and the halved entries AS EXTRACTED from
+    the source: for q with q(-cos t) = sum_{j<=2n-3} b_j cos(j t),
     pi * rule(q) = int_0^pi sin^2 t q(-cos t) dt   ( = int_{-1}^{1} sqrt(1-x^2) q(x) dx by
-    the substitution x = -cos t, which is not formalised) *)
+    the substitution x = -cos t, which is not formalised).  n = M, N, N-1 for z, pz, pp. *)
 Theorem integrate_exact : forall d ep M N b q,
-  (2 <= wdiv d M N)%nat -> (length b <= 2 * wdiv d M N - 2)%nat ->
+  sizes_ok d M N ->
+  (2 <= gen_int_div d ep M N)%nat -> (length b <= 2 * gen_int_div d ep M N - 2)%nat ->
   (forall t, q (- cos t) = trigpoly b t) ->
+  gen_int_div d ep M N = wdiv d M N /\
   is_RInt (fun t => sin t ^ 2 * trigpoly b t) 0 PI
-          (PI * ruleR d ep (gcl_grid (wdiv d M N)) M N q).
-Proof. exact integrate_exact_R. Qed.
+          (PI * ruleRH (gen_int_halved d ep) (gen_int_div d ep M N) d ep
+                       (gcl_grid (gen_int_div d ep M N)) q).
+Proof.
+  intros d ep M N b q HS Hn Hb Hq. split.
+  - apply (index_ranges_match_model_lemma d ep M N 0%nat HS).
+  - apply integrate_exact_gen; try assumption.
+    apply (index_ranges_match_model_lemma d ep M N 0%nat HS).
+Qed.
 Print Assumptions integrate_exact.
 
 (** non-vacuity: a concrete well-formed grid (M = 2: nodes -1, 0, 1) *)
